@@ -1546,6 +1546,51 @@ def run_observe(root, ctx, tier):
 
 
 # ---------------------------------------------------------------------------
+# the same file extension for every format: which reader is used must follow from the content, never from
+# the name or from what was read before
+
+EXT_LABELS = ["peer3", "mseed1", "saf", "sac3", "gcf1", "mseed3"]
+EXTENSIONS = [".dat", ".txt", ""]
+
+
+def run_same_extension(root, ctx, tier):
+    ext = root["ext"]
+    first = root["first"]
+    wd = tempfile.mkdtemp(prefix="hvmc-c07-")
+    try:
+        entries = {}
+        for i, lab in enumerate(EXT_LABELS):
+            e = build_pool_entry(wd, lab, i)
+            single = e["single"]
+            many = isinstance(single, (list, tuple))
+            renamed = []
+            for q in (single if many else [single]):
+                q = str(q)
+                new = os.path.splitext(q)[0] + ext
+                os.rename(q, new)
+                renamed.append(new)
+            e["single"] = renamed if many else renamed[0]
+            entries[lab] = e
+        for second in EXT_LABELS:
+            for third in (None,) if tier == "quick" and second != "sac3" else (None, "peer3", "saf"):
+                seq = [first, second] + ([third] if third else [])
+                for pos, lab in enumerate(seq):
+                    e = entries[lab]
+                    ctx.count("states")
+                    ctx.count("transitions")
+                    res = _call_single(e["single"], None, None)
+                    detail = dict(family="same-extension", extension=ext, sequence_of_formats_read=seq, position=pos,
+                                  files=[os.path.basename(str(q)) for q in (e["single"] if isinstance(e["single"], list)
+                                                                            else [e["single"]])])
+                    ctx.count("same_extension_reads")
+                    judge_single(ctx, root, lab if lab not in ("peer3", "sac3", "gcf1") else lab[:-1], detail,
+                                 e["exp"], res, None, cls=f"same-extension-after-{'-'.join(seq[:pos]) or 'nothing'}")
+                ctx.nontrivial_case(("same-extension", ext, tuple(seq)))
+    finally:
+        shutil.rmtree(wd, ignore_errors=True)
+
+
+# ---------------------------------------------------------------------------
 # runner interface
 
 def _family_roots(fam, k):
@@ -1588,6 +1633,9 @@ def roots(tier, seed):
     out += _history_roots(tier)
     out += [dict(family="examples", name=name) for name in EXAMPLES]
     out.append(dict(family="observe"))
+    for ext in (EXTENSIONS[:1] if tier == "quick" else EXTENSIONS):
+        for first in EXT_LABELS:
+            out.append(dict(family="same-extension", ext=ext, first=first))
     return out
 
 
@@ -1603,6 +1651,8 @@ def run_root(root, ctx, tier):
         run_history(root, ctx, tier)
     elif fam == "observe":
         run_observe(root, ctx, tier)
+    elif fam == "same-extension":
+        run_same_extension(root, ctx, tier)
     else:
         run_family(root, ctx, tier)
 
